@@ -509,6 +509,8 @@ from . import initial
 
 from . import casts
 
+from . import removals
+
 OBLIGATIONS = [
     ('C01.O1', 'rollback before simulate', 'In advance_rollback_frame every path to the new-frame input fetch passes a '
      'call that must-call check_simulation_consistency and the local input registration; adjust_gamestate runs exactly '
@@ -533,9 +535,10 @@ OBLIGATIONS = [
      'first input).', o6),
     ('C01.O7', 'earliest wrong frame', 'check_simulation_consistency is a NULL-aware min-reduction over the pending '
      'disconnect frame and every queue marker; adjust_gamestate loads that frame (sparse: last saved <= it).', o7),
-    ('C01.H', 'helpers the rules above rely on', 'the bodies of the helpers named by this property\'s rules compute what the rules assume (last_recv_frame, confirmed_input, player_input); see rules/helpers.py', helpers.bundle('last_recv_frame', 'confirmed_input', 'player_input')),
+    ('C01.H', 'helpers the rules above rely on', 'the bodies of the helpers named by this property\'s rules compute what the rules assume (last_recv_frame, confirmed_input, player_input); see rules/helpers.py', helpers.bundle('last_recv_frame', 'confirmed_input', 'player_input', 'from_inputs')),
     ('C01.O14', 'received bytes decode to what was sent (= C14.O4)', 'see C14.O4: the reader of the run-length layer uses the writer\'s table', _c14_o4, {'deps': True}),
     ('C01.O15', 'wire configuration: reader = writer (= C03.O15)', 'see C03.O15', _c03_o15),
     ('C01.I', 'initial state', 'every constructor gives the fields this property\'s rules interpret (NULL_FRAME = none / nothing yet, 0 = first frame, latches open, typestate start) the value listed in tables/initial_state.json; every field compared with NULL_FRAME anywhere is listed; see rules/initial.py', initial.rule_for('C01')),
     ('C01.C', 'lossy integer casts', 'every sign-changing cast (signed -> unsigned; NULL_FRAME is -1) and every narrowing cast to < 32 bits or from 128 bits in the crate is in range by a dominating guard, by the shape of its operand, or listed with a reason in tables/casts.json; see rules/casts.py', casts.rule),
+    ('C01.R', 'who may remove', 'every call that takes elements out of a collection this property\'s rules rely on (keyed removal from a map, or bulk / positional removal) is one of the reviewed sites in tables/removals.json; a lookup turned into a removal, a second prune, a clear on another path is reported; see rules/removals.py', removals.rule_for('C01')),
 ]
